@@ -67,6 +67,9 @@ class Acc(object):
 
 
 def guarded_check(law, case):
+    if law.name != 'no_retention':
+        from .env import reset_shared_errors
+        reset_shared_errors()
     signal.setitimer(signal.ITIMER_REAL, CASE_GUARD_S)
     try:
         law.check(case)
@@ -251,6 +254,8 @@ def run_property(pid, tier, seedv, only=None, jobs=None):
         ns = law.nshards(tier)
         for sh in range(ns):
             tasks.append((pid, idx, tier, seedv, sh, ns, sorted(known.get(law.name, ()))))
+    # shard 0 of every law first, then shard 1 ...: every law starts early (a failing law is seen at once, a slow one cannot starve the others)
+    tasks.sort(key=lambda t: (t[4], t[1]))
     nproc = jobs or int(os.environ.get('HX_JOBS', '16'))
     nproc = max(1, min(nproc, len(tasks)))
     results = []
